@@ -1782,6 +1782,14 @@ func (c *compiler) VisitCastExpr(e *ast.CastExpr) ast.VisitResult {
 			return ast.VisitRecurse
 		}
 
+		// a list converted to/from a type definition of that list type keeps its representation
+		if lhsTyp == c.toIrType(targetType) {
+			c.latestReturn = lhs
+			c.latestReturnType = lhsTyp
+			c.latestIsTemp = isTempLhs
+			return ast.VisitRecurse // don't free lhs
+		}
+
 		listType := c.getListType(lhsTyp)
 		list := c.NewAlloca(listType.typ)
 		c.cbb.NewCall(listType.fromConstantsIrFun, list, newInt(1))
